@@ -43,6 +43,7 @@ use std::borrow::Cow;
 pub struct Context {
     current_filename: String,
     includes_stack: Vec<(String, u32)>,
+    includes_count: u32,
     pub include_directories: Vec<String>,
     defs: BTreeMap<String, String>,
     regex_sets: Vec<RegexSet>,
@@ -60,6 +61,7 @@ impl Context {
         let mut c = Context {
             current_filename: String::from(current_filename),
             includes_stack: Vec::<(String, u32)>::new(),
+            includes_count: 0,
             include_directories: Vec::<String>::new(),
             defs: BTreeMap::new(),
             regex_sets: Vec::new(),
@@ -734,6 +736,19 @@ pub fn process<I: BufRead, O: Write>(
                                             msg: format!("Included file {fname} not found"),
                                         });
                                     }
+                                }
+
+                                // Files including each other several times multiply: the depth limit
+                                // below does not bound their number (8 includes per file, 8 levels:
+                                // 16 million files)
+                                context.includes_count += 1;
+                                if context.includes_count > 10000 {
+                                    return Err(Error::Syntax {
+                                        filename: filename.clone(),
+                                        included_in: included_in.clone(),
+                                        line,
+                                        msg: "Too many #include".to_string(),
+                                    });
                                 }
 
                                 // A file that (directly or not) includes itself would recurse forever
